@@ -211,28 +211,40 @@ def unit_level(ctx):
     reqtab = [[MET, True], [UA, False], [UB, False]]
     reqs = []
     impls = []
-    for seq in seqs:
+    # a plan = list of updates, an update = list of directives (name, positive, args, inline)
+    plans = [[[(syms[i][0][0], syms[i][0][1], [syms[i][0][2]] if syms[i][0][2] is not None else [], syms[i][1])] for i in seq] for seq in seqs]
+    # several directives per update, REQUIRES with several arguments (met and unmet mixed, repeated)
+    for _ in range(2500 if quick else 40000):
+        plan = []
+        for _u in range(rng.randint(1, 5)):
+            up = []
+            for _d in range(rng.randint(1, 4)):
+                (name, pos, arg), inl = syms[rng.randrange(len(syms))]
+                args = [] if arg is None else [rng.choice([MET, UA, UB]) for _a in range(rng.randint(1, 3))]
+                up.append((name, pos, args, inl))
+            plan.append(up)
+        plans.append(plan)
+    for plan in plans:
         ups = []
         rs = directive.RuntimeState()
         trace = []
-        for i in seq:
-            (name, pos, arg), inl = syms[i]
-            dobj = directive.Directive(name, pos, [arg] if arg is not None else [], inline=inl)
-            ups.append([[name, pos, [arg] if arg is not None else [], inl]])
+        for up in plan:
+            dobjs = [directive.Directive(name, pos, list(args), inline=inl) for name, pos, args, inl in up]
+            ups.append([[name, pos, list(args), inl] for name, pos, args, inl in up])
             if trace and trace[-1][0] != 'ok':
                 continue
             g_before = repr(sorted(rs._global_state.items(), key=lambda kv: kv[0]))
             try:
-                rs.update([dobj])
+                rs.update(dobjs)
                 d = rs.to_dict()
                 skips = bool(rs['SKIP'] or len(rs['REQUIRES']) > 0)
                 trace.append(('ok', {k: (sorted(v) if isinstance(v, set) else v) for k, v in d.items()}, skips,
                               {k: (sorted(v) if isinstance(v, set) else v) for k, v in rs._global_state.items()}))
                 g_after = repr(sorted(rs._global_state.items(), key=lambda kv: kv[0]))
-                if inl and not name.startswith('REPORT_') and g_before != g_after:
+                if all(inl and not name.startswith('REPORT_') for name, pos, args, inl in up) and g_before != g_after:
                     ctx.violation('inline-changed-persistent', {
                         'what': 'an inline directive changed the persistent runtime state',
-                        'updates': [[syms[j][0], syms[j][1]] for j in seq], 'before': g_before, 'after': g_after,
+                        'updates': [[list(x) for x in u] for u in plan], 'before': g_before, 'after': g_after,
                         'theorem_or_correspondence': 'C04_inline_leaves_persistent on RuntimeState'}, True)
             except Exception as ex:
                 trace.append((type(ex).__name__.lower(),))
@@ -242,7 +254,7 @@ def unit_level(ctx):
     for i in range(0, len(reqs), 4000):
         answers += common.model_batch(reqs[i:i + 4000])
     nt = 0
-    for seq, tr, ans in zip(seqs, impls, answers):
+    for seq, tr, ans in zip(plans, impls, answers):
         ctx.evaluations += 1
         mt = []
         for a in ans:
@@ -258,11 +270,11 @@ def unit_level(ctx):
             ctx.corr_failures.append(seq)
             if len([v for v in ctx.violations if v['kind'] == 'runtime-state-correspondence']) < 3:
                 ctx.violation('runtime-state-correspondence', {
-                    'what': 'RuntimeState.update differs from the model', 'updates': [[syms[j][0], syms[j][1]] for j in seq],
+                    'what': 'RuntimeState.update differs from the model', 'updates': [[list(x) for x in u] for u in seq],
                     'impl': repr(tr), 'model': repr(mt),
                     'theorem_or_correspondence': 'correspondence RuntimeState.update (feeds C04_scoping)'}, False)
     ctx.nontrivial += nt
-    ctx.count('unit:update_sequences', len(seqs))
+    ctx.count('unit:update_sequences', len(plans))
     ctx.count('unit:sequences_that_skip', nt)
 
 
